@@ -25,6 +25,7 @@ CONSTANTS Vars,        \* program variables
           Kinds,       \* statement kinds the menu may use
           LitIdx,      \* indices into Lits usable by `lit` statements
           Imports,     \* subset of {TRUE, FALSE}: may a `lit` be an import (frozen, defined in the subinclude)?
+          Shape,       \* "free", or "mutate-last": programs  literal ; anything ; ... ; mutation  (aliasing/freshness probes)
           Emit
 
 VARIABLES prog,        \* history: the statements so far
@@ -96,6 +97,10 @@ Resolve(v, h) ==
     [] v.t = "none"  -> TN
     [] v.t = "undef" -> TU
     [] OTHER -> T(h[v.i].k, 0, <<>>, h[v.i].keys, [j \in 1..Len(h[v.i].e) |-> Resolve(h[v.i].e[j], h)])
+
+\* does value v reach heap address a?  (the heap is kept acyclic, so this terminates)
+RECURSIVE Reaches(_, _, _)
+Reaches(v, a, h) == IsRef(v) /\ (v.i = a \/ \E j \in 1..Len(h[v.i].e) : Reaches(h[v.i].e[j], a, h))
 
 \* only primitives inside: safe to store into another object without creating a cycle
 Flat(v, h) == ~IsRef(v) \/ \A j \in 1..Len(h[v.i].e) : ~IsRef(h[v.i].e[j])
@@ -233,7 +238,9 @@ ExecAug(st, S, F) ==
            va == S.env[st.a]
            vo == r.v IN
        IF IsList(va, r.h) /\ IsList(vo, r.h)
-       THEN IF F.augRebinds THEN BindNew(S, st.a, NewList(Elems(va, r.h) \o Elems(vo, r.h), r.h))
+       THEN IF \E j \in 1..Len(Elems(vo, r.h)) : Reaches(Elems(vo, r.h)[j], va.i, r.h)
+            THEN Fail(S)          \* generator restriction: `x += y` with x reachable from an element of y would make x cyclic
+            ELSE IF F.augRebinds THEN BindNew(S, st.a, NewList(Elems(va, r.h) \o Elems(vo, r.h), r.h))
             ELSE Bind(S, st.a, va, [r.h EXCEPT ![va.i].e = @ \o Elems(vo, r.h)])
        ELSE IF va.t = "int" /\ vo.t = "int" THEN Bind(S, st.a, IntV(va.i + vo.i), r.h)
        ELSE IF va.t = "str" /\ vo.t = "str" THEN Bind(S, st.a, StrV(va.s \o vo.s), r.h)
@@ -461,8 +468,14 @@ Small(S) == /\ Len(S.h) <= 60
             /\ \A v \in Vars : Len(S.env[v].s) <= 6 /\ S.env[v].i \in (0 - 1000)..1000
 Init == prog = <<>> /\ sp = InitState /\ sa = [c \in Configs |-> InitState]
 Step(st, S, F) == IF S.ok THEN Exec(st, S, F) ELSE S          \* a rejected program stays rejected
+Mutator(st) == st.k \in {"aug", "setidx", "setkey", "forlit"} \/ (st.k = "call" /\ st.f \in {"k", "m"})
+ShapeOK(st) == \/ Shape = "free"
+               \/ /\ Len(prog) = 0 => st.k = "lit"
+                  /\ Len(prog) = MaxStmts - 1 => Mutator(st)
+                  /\ (0 < Len(prog) /\ Len(prog) < MaxStmts - 1) => ~Mutator(st)
 Next == /\ Len(prog) < MaxStmts
         /\ \E st \in Menu : LET np == Exec(st, sp, NoFlaws) IN
+                             /\ ShapeOK(st)
                              /\ np.ok                          \* CPython does not raise: the program is in the property's domain
                              /\ Small(np)                      \* generator bound: values stay small
                              /\ prog' = Append(prog, st)
@@ -519,7 +532,7 @@ KindsC16  == {"lit", "alias", "aug", "setidx", "setkey", "call", "compr", "slice
 KindsC18  == {"lit", "compr", "slice", "getidx", "getkey", "un", "bin", "binlit", "hof"}        \* no mutation: C18 is about reading imported values
 LitsAll   == 1..Len(Lits)
 LitsSmall == {1, 3, 4, 5}
-LitsC18   == {1, 3, 4, 5, 6, 9}
+LitsC18   == {1, 2, 3, 4, 5, 6, 9}
 NoImports == {FALSE}
 Both      == {TRUE, FALSE}
 =============================================================================
